@@ -2,12 +2,14 @@ package keeper
 
 import (
 	"encoding/hex"
+	"math"
 
 	errorsmod "cosmossdk.io/errors"
 	"cosmossdk.io/log"
 	storetypes "cosmossdk.io/store/types"
 	"github.com/cosmos/cosmos-sdk/codec"
 	sdk "github.com/cosmos/cosmos-sdk/types"
+	sdkerrors "github.com/cosmos/cosmos-sdk/types/errors"
 	"mods.irisnet.org/modules/random/types"
 )
 
@@ -55,6 +57,13 @@ func (k Keeper) RequestRandom(
 	serviceFeeCap sdk.Coins,
 ) (types.Request, error) {
 	currentHeight := ctx.BlockHeight()
+	if blockInterval > uint64(math.MaxInt64-currentHeight) {
+		return types.Request{}, errorsmod.Wrapf(
+			sdkerrors.ErrInvalidRequest,
+			"block interval %d is out of range at height %d",
+			blockInterval, currentHeight,
+		)
+	}
 	destHeight := currentHeight + int64(blockInterval)
 
 	// get tx hash
